@@ -15,6 +15,8 @@ pub type MkMonitors = fn() -> Vec<Box<dyn Monitor>>;
 pub struct CheckSpec {
     pub id: &'static str,
     pub profile: Profile,
+    /// further world profiles; run i uses the (i mod n)-th of [profile] + more_profiles
+    pub more_profiles: &'static [Profile],
     pub mk: MkMonitors,
     pub level: &'static str,
     pub rule: &'static str,
@@ -288,7 +290,8 @@ pub fn run_batch(spec: &CheckSpec, thorough: bool, base_seed: u64, runs_override
     #[allow(clippy::type_complexity)]
     let agg: Arc<Mutex<(Coverage, BTreeMap<&'static str, u64>, u64, u64, u64, u64, Vec<(u64, RunResult)>, BTreeMap<String, (KnownFinding, u64)>)>> =
         Arc::new(Mutex::new((Coverage::default(), BTreeMap::new(), 0, 0, 0, 0, Vec::new(), BTreeMap::new())));
-    let profile = spec.profile;
+    let mut profiles: Vec<Profile> = vec![spec.profile];
+    profiles.extend_from_slice(spec.more_profiles);
     let mk = spec.mk;
     let extra = spec.extra;
     let mut handles = Vec::new();
@@ -296,6 +299,7 @@ pub fn run_batch(spec: &CheckSpec, thorough: bool, base_seed: u64, runs_override
         let next = next.clone();
         let stop = stop.clone();
         let agg = agg.clone();
+        let profiles = profiles.clone();
         handles.push(
             std::thread::Builder::new()
                 .stack_size(64 << 20)
@@ -314,6 +318,7 @@ pub fn run_batch(spec: &CheckSpec, thorough: bool, base_seed: u64, runs_override
                             break;
                         }
                         let seed = base_seed.wrapping_add(i);
+                        let profile = profiles[(i % profiles.len() as u64) as usize];
                         let mut r = run_one(seed, profile, thorough, mk, true);
                         runs += 1;
                         ok += r.landed_ok;
@@ -375,6 +380,7 @@ pub fn run_batch(spec: &CheckSpec, thorough: bool, base_seed: u64, runs_override
     let mut reported: Vec<Value> = Vec::new();
     for (seed, r) in bad.iter().take(4) {
         let v = &r.violations[0];
+        let profile = profiles[((seed.wrapping_sub(base_seed)) % profiles.len() as u64) as usize];
         if let Some(k) = is_known(&known, v) {
             known_hits.entry(k.what.clone()).or_insert((k, 0)).1 += 1;
             continue;
@@ -441,7 +447,7 @@ pub fn run_batch(spec: &CheckSpec, thorough: bool, base_seed: u64, runs_override
             "components_real": ["whirlpool program (/repo working tree, real entrypoint + public handlers)", "spl-token 8.0.0", "spl-token-2022 8.0.1", "spl-associated-token-account 7.0.0", "spl-memo 6.0.0", "anchor-lang 0.32.1 / pinocchio 0.9.2 (host seams patched)"],
             "components_stub": ["runtime (loader buffer, CPI privilege rules, rent/lamport post-conditions)", "system program", "metaplex token-metadata", "transfer-hook program", "SBF VM / compute and heap limits (not simulated)"],
             "threads": threads,
-            "profile": profile.name(),
+            "profile": profiles.iter().map(|p| p.name()).collect::<Vec<_>>(),
             "violations_reported": reported,
             "known_findings_seen": known_hits.iter().map(|(w, (_, n))| json!({"what": w, "runs_or_hits": n})).collect::<Vec<_>>(),
         },
